@@ -132,6 +132,53 @@ def build(cfg, quiet=True):
     finally:
         fcntl.flock(lk, fcntl.LOCK_UN)
 
+
+def build_program(name, cc, lib_cflags, extra_units, link_flags, out_name):
+    """compile the whole library (working tree) with lib_cflags plus extra translation units
+    [(source path, cflags)], link them into build/<name>/<out_name>; cached by content hash."""
+    h = hashlib.sha256()
+    h.update(tree_hash().encode())
+    h.update(json.dumps([cc, lib_cflags, [(s, f) for s, f in extra_units], link_flags]).encode())
+    for s, _ in extra_units:
+        h.update(open(s, 'rb').read())
+        d0 = os.path.dirname(s)
+        for f in sorted(os.listdir(d0)):
+            if f.endswith('.h'):
+                h.update(open(os.path.join(d0, f), 'rb').read())
+    key = h.hexdigest()[:16]
+    d = os.path.join(BUILD, name)
+    stamp = os.path.join(d, 'KEY'); out = os.path.join(d, out_name)
+    if os.path.exists(stamp) and open(stamp).read() == key and os.path.exists(out):
+        return out
+    os.makedirs(BUILD, exist_ok=True)
+    import fcntl
+    lk = open(os.path.join(BUILD, '.lock_' + name), 'w')
+    fcntl.flock(lk, fcntl.LOCK_EX)
+    try:
+        if os.path.exists(stamp) and open(stamp).read() == key and os.path.exists(out):
+            return out
+        if os.path.exists(d):
+            shutil.rmtree(d)
+        os.makedirs(d)
+        inc = ['-I' + os.path.join(REPO, 'include'), '-I' + os.path.join(REPO, 'src')]
+        jobs = []
+        for s in sources():
+            if is_excluded_src(s):
+                continue
+            o = os.path.join(d, os.path.relpath(s, REPO).replace('/', '_')[:-2] + '.o')
+            jobs.append([cc, '-c'] + WARN + lib_cflags + inc + [s, '-o', o])
+        for s, fl in extra_units:
+            o = os.path.join(d, 'x_' + os.path.basename(s)[:-2] + '.o')
+            jobs.append([cc, '-c'] + WARN + fl + inc + ['-I' + os.path.dirname(s), s, '-o', o])
+        with ThreadPoolExecutor(16) as ex:
+            list(ex.map(run, jobs))
+        run([cc, '-o', out] + [j[-1] for j in jobs] + link_flags + ['-ldl', '-lpthread'])
+        with open(stamp, 'w') as f:
+            f.write(key)
+        return out
+    finally:
+        fcntl.flock(lk, fcntl.LOCK_UN)
+
 def asan_runtime():
     return run(['clang', '-print-file-name=libclang_rt.asan-x86_64.so']).strip()
 
